@@ -53,6 +53,7 @@ fn main() {
         "C06" => run_property(props::c06_safe_to::C06, run_args),
         "C07" => run_property(props::c07_parent_ready::C07, run_args),
         "C08" => run_property(props::c08_finality::C08, run_args),
+        "C09" => run_property(props::c09_admission::C09, run_args),
         "C11" => run_property(props::c11_erasure::C11, run_args),
         "C15" => run_property(props::c15_merkle::C15, run_args),
         "C16" => run_property(props::c16_routing::C16, run_args),
